@@ -508,9 +508,43 @@ class Loader:
         self.mods[name] = mod
         code = compile(tree, path, 'exec')
         exec(code, mod.__dict__)
+        for k, v in list(vars(mod).items()):
+            if type(v) is dict and v and not k.startswith('__') and \
+                    all(isinstance(x, str) for x in v):
+                setattr(mod, k, SymKeyDict(v))
         for k, v in self.attrs.get(name, {}).items():
             setattr(mod, k, v)
         return mod
+
+
+class SymKeyDict(dict):
+    """a module-level table with concrete string keys, looked up with a
+    symbolic key: the lookup forks over the keys (same content as the
+    repo's dict literal)"""
+    def _find(self, k):
+        for key in dict.keys(self):
+            if isinstance(key, str) and len(key) == len(k) and (k == key):
+                return key
+        return None
+
+    def __getitem__(self, k):
+        if isinstance(k, SymStr):
+            key = self._find(k)
+            if key is None:
+                raise core.deliberate(KeyError('<symbolic key>'))
+            return dict.__getitem__(self, key)
+        return dict.__getitem__(self, k)
+
+    def __contains__(self, k):
+        if isinstance(k, SymStr):
+            return self._find(k) is not None
+        return dict.__contains__(self, k)
+
+    def get(self, k, default=None):
+        if isinstance(k, SymStr):
+            key = self._find(k)
+            return default if key is None else dict.__getitem__(self, key)
+        return dict.get(self, k, default)
 
 
 class CallRecorder:
